@@ -412,6 +412,12 @@ end
 			Receiver: "local ok, t = ch:receive()\nlocal y = t.x\n"}},
 		// one shared prototype, several states, churn
 		{Kind: "iso", Iso: &IsoSpec{Src: fmt.Sprintf(strings.Join(snippets, "\n"), 40, 7, 12), Other: otherSrc, N: 8, Churn: 3, Procs: 16, TimeoutMs: 60000}},
+		// a consumer that receives with its registry / call stack at the limit and retries: a
+		// receive that fails must not have taken a value
+		{Kind: "limit", Limit: &LimitSpec{Mode: "receive", Fat: true, N: 600, Cap: 0, RegSize: 1024, CallStack: 256, TimeoutMs: 60000}},
+		{Kind: "limit", Limit: &LimitSpec{Mode: "select", Fat: true, N: 600, Cap: 2, RegSize: 512, RegMax: 1536, CallStack: 256, TimeoutMs: 60000}},
+		{Kind: "limit", Limit: &LimitSpec{Mode: "handler", Fat: false, N: 400, Cap: 0, RegSize: 5120, CallStack: 48, TimeoutMs: 60000}},
+		{Kind: "limit", Limit: &LimitSpec{Mode: "handler", Fat: true, N: 400, Cap: 1, RegSize: 1024, CallStack: 256, TimeoutMs: 60000}},
 		// channel.make with sizes from harmless to absurd, under pcall, next to another state
 		{Kind: "make", Make: &MakeSpec{Sizes: []int64{0, 1, 5, 1024, 1 << 20, 67108865, 1 << 33, 1 << 40, 1 << 44, 1 << 53, 1 << 62, -1, -(1 << 40)}, TimeoutMs: 30000}},
 		// per-state library objects: a state that changes every table it can reach (channel
@@ -477,6 +483,17 @@ func genJobs(r *lib.Rand, tier string) []Job {
 			}
 		}
 		js = append(js, Job{Kind: "make", Make: &MakeSpec{Sizes: sizes, TimeoutMs: 30000}})
+	}
+	for i := 0; i < 3; i++ {
+		l := &LimitSpec{Mode: []string{"receive", "select", "handler"}[r.Intn(3)], Fat: r.Chance(70), N: r.Range(200, 600), Cap: r.Pick(2, 1, 1),
+			RegSize: 256 * r.Range(2, 6), CallStack: 256, TimeoutMs: 60000}
+		if r.Bool() {
+			l.RegMax = l.RegSize + 32*r.Range(1, 20)
+		}
+		if !l.Fat {
+			l.RegSize, l.RegMax, l.CallStack = 5120, 0, r.Range(24, 80)
+		}
+		js = append(js, Job{Kind: "limit", Limit: l})
 	}
 	nlib := 3
 	if tier == "thorough" {
